@@ -10,7 +10,8 @@ export Verif.Model.DataURI (dataURI parseDataURI mediatype b64enc b64dec encodeU
 end M
 namespace S
 export Verif.Spec.Rfc2397 (rfcParse mtNorm holdsDataURI specMediatype specMediatypeOK quotesClosed
-  trigPlus trigParamNoType trigB64Item trigTextPlainPrefix trigQuoteShift trigBackslash pctDecode b64Decode)
+  trigPlus trigParamNoType trigB64Item trigTextPlainPrefix trigQuoteShift trigBackslash pctDecode b64Decode
+  validlyEncoded)
 end S
 
 def cb (l : List Char) : Bytes := charsToBytes l
@@ -30,14 +31,16 @@ def datauri : Handler := fun args => do
   | none => .ok (listReply [cb out, boolBytes false, [], []])
   | some (mt, d) => .ok (listReply [cb out, boolBytes true, cb mt, cb d])
 
-/-- `spec.c18.rfc u` → `[ok, media type text, normal form, data, trigPlus trigParamNoType trigB64Item trigTextPlainPrefix]` -/
+/-- `spec.c18.rfc u` → `[ok, media type text, normal form, data, trigPlus trigParamNoType trigB64Item trigTextPlainPrefix,
+    validly encoded?]` -/
 def rfc : Handler := fun args => do
   let u ← argChars args 0
   let tr : Bytes := boolBytes (S.trigPlus u) ++ boolBytes (S.trigParamNoType u) ++ boolBytes (S.trigB64Item u)
     ++ boolBytes (S.trigTextPlainPrefix u)
   match S.rfcParse u with
-  | none => .ok (listReply [boolBytes false, [], [], [], tr])
-  | some (mt, d) => .ok (listReply [boolBytes true, cb mt, normBytes (S.mtNorm mt), cb d, tr])
+  | none => .ok (listReply [boolBytes false, [], [], [], tr, boolBytes false])
+  | some (mt, d) => .ok (listReply [boolBytes true, cb mt, normBytes (S.mtNorm mt), cb d, tr,
+      boolBytes (S.validlyEncoded M.tbl u)])
 
 /-- `spec.c18.holds u out d'` → the property on an (input, implementation output) pair -/
 def holds : Handler := fun args => do
